@@ -184,10 +184,11 @@ func runCheck(prop, tier string, seed int, t0 time.Time) int {
 	for _, o := range failures {
 		matched := false
 		for _, kf := range kfs {
-			if kf.Status == "known" && kf.Property == prop && kf.Obligation == o.Name && strings.HasSuffix(o.Fn, kf.Function) {
+			if kf.Status == "known" && kf.Property == prop && strings.HasPrefix(o.Name, kf.Obligation) && strings.HasSuffix(o.Fn, kf.Function) {
 				matched = true
 				fmt.Printf("KNOWN-FINDING: property=%s %s\n", prop, kf.Description)
 				knownSeen = append(knownSeen, kf.Obligation+" in "+kf.Function)
+				total-- // a registered finding is reported, not claimed: it is not part of the obligations counted as proof
 			}
 		}
 		if !matched {
